@@ -271,6 +271,20 @@ theorem applySvc_cyclic (E : Env) :
       · exact Or.inl (by simp [applySvc, hcur, h2, h3, hrb, hta, hrec])
       · exact Or.inr (by simp [applySvc, hcur, h2, h3, hrb, hta, hrec])
 
+/-- on a node whose chain runs into a cycle the flatten specification reports that the chain is too long, whatever bound
+it is given (this is how the cycle oracle of `c05.apply` recognises a cyclic service on the specification side) -/
+theorem flattenF_cyclic (E : Env) : ∀ (fuel : Nat) (S : KVs) (n : String), Cyclic E (S, n) →
+    flattenF E fuel S n = .err "flatten:chain-too-long" := by
+  intro fuel
+  induction fuel with
+  | zero => intro S n _; simp [flattenF]
+  | succ fuel ih =>
+    intro S n hc
+    obtain ⟨⟨S', ref⟩, l, hcb⟩ := hc.link
+    obtain ⟨svc, e, file, h1, h2, h3, h4⟩ := l
+    simp only at h1 h3 h4
+    simp [flattenF, h1, h2, h3, h4, ih S' ref hcb]
+
 /-- when every service either flattens or runs into a cycle, the loop of `ApplyExtends` reports `circular` as soon as
 it visits a cyclic one — and it does visit one if there is one -/
 theorem applyAll_cyclic (E : Env) (hE : FuelFree E) (hmain : fileServices E.fs E.mainFile = none) (S : KVs) :
